@@ -66,6 +66,32 @@ def wf_fanin() -> Any:
                                    make_step("join", [Done], [StopEvent, None], join, num_workers=1)])
 
 
+def wf_fan_keeper() -> Any:
+    """the fan-in plus a step that stays busy from the start: the run never goes idle, so every restart resumes it (no idle flag is
+    ever set) - two workers of one step are under way when the process stops, and the restarted process is stopped again"""
+    async def start(self, ctx, ev, inv):  # noqa: ANN001
+        ctx.send_event(Work(uid=1))
+        ctx.send_event(Work(uid=2))
+        return None
+
+    async def keeper(self, ctx, ev, inv):  # noqa: ANN001
+        await gate("keeper")
+        return None
+
+    async def work(self, ctx, ev, inv):  # noqa: ANN001
+        await gate(f"work{ev.uid}")
+        return Done(uid=ev.uid * 10)
+
+    async def join(self, ctx, ev, inv):  # noqa: ANN001
+        got = ctx.collect_events(ev, [Done, Done])
+        if got is None:
+            return None
+        return StopEvent(result="fanin:" + ",".join(str(u) for u in sorted(e.uid for e in got)))
+
+    return make_workflow("FanKeeper", [make_step("start", [StartEvent], [Work, None], start), make_step("keeper", [StartEvent], [None], keeper),
+                                       make_step("work", [Work], [Done], work, num_workers=2), make_step("join", [Done], [StopEvent, None], join, num_workers=1)])
+
+
 def wf_queue_order() -> Any:
     """three items for a single-worker step: two always wait in its queue; the fan-in keeps ARRIVAL order, so the result
     shows in which order the restored queue was worked off"""
@@ -171,6 +197,7 @@ def wf_cancellable() -> Any:
 PROGRAMS: dict[str, dict[str, Any]] = {
     "chain": {"make": wf_chain, "expected": "chain:2", "responses": []},
     "fanin": {"make": wf_fanin, "expected": "fanin:10,20", "responses": []},
+    "fan_keeper": {"make": wf_fan_keeper, "expected": "fanin:10,20", "responses": []},
     "queue_order": {"make": wf_queue_order, "expected": "order:0,1,2", "responses": []},
     "retry": {"make": wf_retry, "expected": "retry:2", "responses": []},
     "recover": {"make": wf_recover, "expected": "recovered:s1:ValueError", "responses": []},
@@ -554,10 +581,10 @@ def programs(tier: str) -> list[Program]:
                                   (lambda ex, pname=pname, backend=backend, k=k: execute(ex, pname, backend, k)),
                                   max_dev=(1 if q else 2)))
     # two process stops: the restarted server is stopped again after the j-th tick it persisted itself
-    for pname in (("chain", "fanin") if q else [p for p in PROGRAMS if p not in ("wait_busy_answer_after_restart", "wait_released_then_answered")]):
+    for pname in (("chain", "fanin", "fan_keeper") if q else [p for p in PROGRAMS if p not in ("wait_busy_answer_after_restart", "wait_released_then_answered")]):
         for backend in (("sqlite",) if q else ("memory", "sqlite")):
-            for k in ((2, 4, 6) if q else range(1, 13)):
-                for j in ((1, 2) if q else range(1, 7)):
+            for k in (((2, 4, 6) if pname != "fan_keeper" else (5, 6)) if q else range(1, 13)):
+                for j in (((1, 2) if pname != "fan_keeper" else (1, 3)) if q else range(1, 7)):
                     ps.append(Program(f"{pname}/{backend}/crash_after_tick_{k:02d}_then_{j:02d}",
                                       {"program": pname, "backend": backend, "crash_at": k, "crash_at2": j},
                                       (lambda ex, pname=pname, backend=backend, k=k, j=j: execute(ex, pname, backend, k, crash_at2=j)),
